@@ -43,6 +43,7 @@ def run(ctx):
     r10_filters_stateless(ctx)
     r11_equality(ctx)
     r12_header_names(ctx)
+    r13_forwarding_getattr(ctx)
 
 
 def r1_complete(ctx, dense, sparse):
@@ -408,6 +409,26 @@ def r12_header_names(ctx):
     ctx.ob("C13.R12", ROWS, "DropRows.make_drop_row_args", maps[0] if maps else md, "the name -> position map handed to KeepDense lists only the columns that survive the drop", ok, stmt="kept names only")
 
 
+def r13_forwarding_getattr(ctx, rule="C13.R13"):
+    ctx.rule(rule, "row views can be copied and pickled like the rows they describe: a __getattr__ that forwards to self.<field> refuses to forward the look-up of that "
+                   "field itself (copy / pickle probe attributes of an instance whose slots are not set yet; forwarding `_row` to `self._row` recurses without end)")
+    n = 0
+    for c in ctx.model.classes:
+        if c.rel.startswith("coba/tests") or "__getattr__" not in c.methods:
+            continue
+        ga = c.methods["__getattr__"]
+        A = ga.args.args[1].arg if len(ga.args.args) > 1 else "attr"
+        fwd = [k for k in ast.walk(ga) if isinstance(k, ast.Call) and call_name(k) == "getattr" and len(k.args) >= 2 and is_self_attr(k.args[0]) and unparse(k.args[1]) == A]
+        for k in fwd:
+            n += 1
+            field = k.args[0].attr
+            ctx.touch(c.rel, f"{c.name}.__getattr__")
+            guards = [x for x in walk_shallow(ga) if isinstance(x, ast.If) and any(isinstance(r, ast.Raise) for r in x.body) and
+                      (repr(field) in unparse(x.test) or f"{A}.startswith('_')" in unparse(x.test) or f"{A}[0] == '_'" in unparse(x.test)) and x.lineno < k.lineno]
+            ctx.ob(rule, c.rel, f"{c.name}.__getattr__", k, f"the look-up of `{field}` itself is answered with AttributeError before anything is forwarded to self.{field}", bool(guards))
+    ctx.floor(rule, "forwarding __getattr__ methods", n, 2)
+
+
 def r11_equality(ctx):
     ctx.rule("C13.R11", "a row view equals the eager list/dict it describes whatever its cells hold: Dense_.__eq__ / Sparse_.__eq__ compare list(...) / dict(...) of the "
                         "row (cells are compared with ==, never hashed -- a list- or dict-valued cell must not make a row unequal to itself)")
@@ -441,6 +462,7 @@ def _empty_marker(tree):
 
 
 CONTROLS = [
+    ("forwarding __getattr__ without a base case", PRIM, M.delete_stmt("Dense_.__getattr__", M.text_has("if attr == '_row': raise AttributeError(attr)")), "C13.R13"),
     ("EncodeDense indexes its encoders with the raw key", ROWS, M.delete_stmt("EncodeDense.__getitem__", M.text_has("key = key if key.__class__ is int else self._row.headers[key]")), "C13.R12"),
     ("encoders resolved by enumerating the header map", ROWS, M.replace_expr("EncodeRows.filter", "[enc.get(names.get(i), enc.get(i, lambda x: x)) for i in range(len(first))]", "[enc.get(h, enc.get(i, lambda x: x)) for i, h in enumerate(first.headers)]"), "C13.R12"),
     ("dropped columns stay in the name map", ROWS, M.replace_expr("DropRows.make_drop_row_args", "(hi for hi in headers if selects[hi[1]])", "headers"), "C13.R12"),
